@@ -18,6 +18,7 @@ package c18
 import (
 	"context"
 	"fmt"
+	"reflect"
 	"sort"
 	"strings"
 	"testing"
@@ -242,12 +243,13 @@ func dimCovered(a, q rbacv1.PolicyRule) (n int, total int) {
 }
 
 // partialOverlap: some (allow rule, request rule) pair agrees in at least one
-// dimension but not in all.
+// dimension, and either not in all or the two rules are not the same rule
+// (coverage through a wildcard or a list).
 func partialOverlap(allow, req []rbacv1.PolicyRule) bool {
 	for _, a := range allow {
 		for _, q := range req {
 			n, total := dimCovered(a, q)
-			if n >= 1 && n < total {
+			if n >= 1 && (n < total || !reflect.DeepEqual(a, q)) {
 				return true
 			}
 		}
@@ -410,7 +412,7 @@ func mixedScenario(rep *report.R, t *coverTable, nRes, nURL int) report.Scenario
 func TestCheck(t *testing.T) {
 	rep := report.New("C18", "exploration")
 	rep.Meta(
-		"Layer 1 (cover/*, url, mixed): every pair (allow-list ClusterRole rule set, permission-request rule set) of the stated sizes over the rule universe is built from Free choices and given to the real ClusterRoleBackedValidator; if it accepts, every concrete request (universe = constants mentioned + one fresh symbol per dimension) granted by the requests must be granted by the allow-list according to an independent evaluator of Kubernetes RBAC semantics (soundness only; 'stricter' is counted, not failed). A pair is non-trivial when some allow rule and some request rule agree in at least one dimension (group/resource/name/verb or url/verb) but not in all. "+
+		"Layer 1 (cover/*, url, mixed): every pair (allow-list ClusterRole rule set, permission-request rule set) of the stated sizes over the rule universe is built from Free choices and given to the real ClusterRoleBackedValidator; if it accepts, every concrete request (universe = constants mentioned + one fresh symbol per dimension) granted by the requests must be granted by the allow-list according to an independent evaluator of Kubernetes RBAC semantics (soundness only; 'stricter' is counted, not failed). A pair is non-trivial when some allow rule and some request rule agree in at least one dimension (group/resource/name/verb or url/verb) and either disagree in another or are different rules (coverage through a wildcard or list, not identity). "+
 			"Layer 2 (reconcile/*): the real roles.Reconciler wired as roles.Setup over simkube for every allow-list option x request option x family label x package sources x owned references x stale roles: oracle-uncovered or validator-rejected requests => no effective ClusterRole write; otherwise the stored system role grants only what an independently computed allowed rule set grants (own CRDs, CRDs of same-family same-registry-and-org revisions, */finalizers in those groups, baseline, requests), edit/view roles only CRD resources. Non-trivial when the OrgDiffer is consulted (a member carries the same family label) or the validator has a non-empty request. binding: subjects and roleRef of the ClusterRoleBinding. "+
 			"Layer 3 (xrd): real definition.Reconciler; every role grants only {composite, claim} x {'', status, finalizers} in the XRD group and grants at least read of the composite (and claim).",
 		[]string{
